@@ -117,9 +117,31 @@ func observe(c *Case, em types.EntityMap) (got bool, err error) {
 	src := uid(c, c.Src)
 	other := types.NewEntityUID("Other", "o")
 	switch c.Form {
-	case "in", "inset", "isin", "isinset":
+	case "in", "inset", "isin", "isinset", "orsplit", "orsplit-nested":
 		var n xast.IsNode
+		pvar := xast.NodeTypeVariable{Name: "principal"}
+		inOne := func(t int) xast.IsNode {
+			return xast.NodeTypeIn{BinaryNode: xast.BinaryNode{Left: pvar, Right: lit(uid(c, t))}}
+		}
+		inList := func(ts []int) xast.IsNode {
+			var es []xast.IsNode
+			for _, t := range ts {
+				es = append(es, lit(uid(c, t)))
+			}
+			return xast.NodeTypeIn{BinaryNode: xast.BinaryNode{Left: pvar, Right: xast.NodeTypeSet{Elements: es}}}
+		}
+		or := func(a, b xast.IsNode) xast.IsNode { return xast.NodeTypeOr{BinaryNode: xast.BinaryNode{Left: a, Right: b}} }
+		princ := other
 		switch c.Form {
+		case "orsplit":
+			// `principal in t0 || principal in [t1..]` is `principal in [t0, t1..]` (the list may be empty)
+			princ = src
+			n = or(inOne(c.Targets[0]), inList(c.Targets[1:]))
+		case "orsplit-nested":
+			// `principal in [t_last] || (principal in t0 || principal in [t1..t_last-1])`
+			princ = src
+			k := len(c.Targets) - 1
+			n = or(inList(c.Targets[k:]), or(inOne(c.Targets[0]), inList(c.Targets[1:max(k, 1)])))
 		case "isinset":
 			var es []xast.IsNode
 			for _, t := range c.Targets {
@@ -137,7 +159,7 @@ func observe(c *Case, em types.EntityMap) (got bool, err error) {
 		case "isin":
 			n = xast.NodeTypeIsIn{NodeTypeIs: xast.NodeTypeIs{Left: lit(src), EntityType: types.EntityType(c.IsType)}, Entity: lit(uid(c, c.Targets[0]))}
 		}
-		v, e := xeval.Eval(n, xeval.Env{Entities: em, Principal: other, Action: other, Resource: other, Context: types.Record{}})
+		v, e := xeval.Eval(n, xeval.Env{Entities: em, Principal: princ, Action: other, Resource: other, Context: types.Record{}})
 		if e != nil {
 			return false, e
 		}
@@ -151,7 +173,7 @@ func observe(c *Case, em types.EntityMap) (got bool, err error) {
 			Conditions: []xast.ConditionType{{Condition: xast.ConditionWhen, Body: n}}}
 		wps := cedar.NewPolicySet()
 		wps.Add("p", cedar.NewPolicyFromAST((*pubast.Policy)(wp)))
-		dec, diag := cedar.Authorize(wps, em, types.Request{Principal: other, Action: other, Resource: other, Context: types.Record{}})
+		dec, diag := cedar.Authorize(wps, em, types.Request{Principal: princ, Action: other, Resource: other, Context: types.Record{}})
 		if len(diag.Errors) > 0 {
 			return false, fmt.Errorf("authorize error for `when { e }`: %v", diag.Errors[0].Message)
 		}
@@ -410,6 +432,14 @@ func exhaustive(t *testing.T, n int, stride uint32) {
 							fails++
 							report(t, "scope-a-inset", c, msg)
 						}
+						for _, f := range []string{"orsplit", "orsplit-nested"} {
+							c.Form = f
+							pairs++
+							if msg := checkCase(c, em); msg != "" && fails < 50 {
+								fails++
+								report(t, f, c, msg)
+							}
+						}
 						for _, ty := range []string{"T0", "T1"} {
 							c.Form, c.IsType = "isinset", ty
 							pairs++
@@ -519,10 +549,13 @@ func genCase(t *rapid.T) *Case {
 		}
 	}
 	c.Src = rapid.IntRange(-1, n-1).Draw(t, "src") // -1: the zero-value uid
-	c.Form = rapid.SampledFrom([]string{"in", "in", "inset", "inset", "isin", "isinset", "isinset", "scope-p-in", "scope-p-isin", "scope-a-in", "scope-a-inset", "scope-r-in", "scope-r-isin", "scope-r-is"}).Draw(t, "form")
+	c.Form = rapid.SampledFrom([]string{"in", "in", "inset", "inset", "isin", "isinset", "isinset", "scope-p-in", "scope-p-isin", "scope-a-in", "scope-a-inset", "scope-r-in", "scope-r-isin", "scope-r-is", "orsplit", "orsplit-nested"}).Draw(t, "form")
 	nt := 1
 	if c.Form == "inset" || c.Form == "isinset" || c.Form == "scope-a-inset" {
 		nt = rapid.IntRange(0, 10).Draw(t, "ntargets")
+	}
+	if c.Form == "orsplit" || c.Form == "orsplit-nested" {
+		nt = rapid.IntRange(1, 10).Draw(t, "ntargets")
 	}
 	for i := 0; i < nt; i++ {
 		c.Targets = append(c.Targets, rapid.IntRange(0, n-1).Draw(t, "target"))
